@@ -49,6 +49,7 @@ R2 = {
     "C04_9": "the list form of the single calls and the async twins in C04's histories",
     "C09_7": "load_model inside the mirror histories (auto-save flag must survive)",
     "C14_5": "enforcer probe with the permission rules loaded by load_filtered_policy after the matching function was registered",
+    "C16_1": "fine-grained exclusion stream: a scheduling point right after every mutex release of the real methods (failing input instead of only a broken translation)",
     "C16_4": "sections entered through two guard objects shared by all threads (failing input instead of only a rejected translation)",
     "C16_5": "half of the programs end every section as if its body had raised (failing input instead of only a rejected translation)",
     "C17_4": "a scheduling point inside the matcher evaluation (has_link)",
